@@ -337,6 +337,37 @@ theorem C16_symmetric_se (ker : List Int) (ks cy cx : Nat)
   · have := one p q hpq; rw [hqp] at this; cases this
 
 
+/-- for a structuring element whose non-zero pattern is invariant under transposition (cross, square, disc, diagonal
+    lines …) the neighbourhood as coded equals the Spec neighbourhood -/
+theorem C16_se_orientation_agrees (ker : List Int) (ks cy cx : Nat) (px py qx qy : Int)
+    (ht : transposeInvariant ker ks = true) :
+    isNeighbour ker ks cy cx px py qx qy = isNeighbourSpec ker ks cy cx px py qx qy := by
+  unfold transposeInvariant at ht
+  simp only [List.all_eq_true, List.mem_range, beq_iff_eq] at ht
+  have e : ∀ r c, r < ks → c < ks → ((ker.getD (c * ks + r) 0 ≠ 0) ↔ (ker.getD (r * ks + c) 0 ≠ 0)) := by
+    intro r c hr hc
+    have h0 := ht r hr c hc
+    have h0' : (ker.getD (r * ks + c) 0 = 0) ↔ (ker.getD (c * ks + r) 0 = 0) := by
+      constructor
+      · intro h; have : (ker.getD (r * ks + c) 0 == 0) = true := beq_iff_eq.mpr h
+        rw [h0] at this; exact beq_iff_eq.mp this
+      · intro h; have : (ker.getD (c * ks + r) 0 == 0) = true := beq_iff_eq.mpr h
+        rw [← h0] at this; exact beq_iff_eq.mp this
+    exact ⟨fun h1 h2 => h1 (h0'.mp h2), fun h1 h2 => h1 (h0'.mpr h2)⟩
+  unfold isNeighbour isNeighbourSpec
+  rw [Bool.eq_iff_iff]
+  simp only [List.any_eq_true, List.mem_range, Bool.and_eq_true, ne_eq, beq_iff_eq, decide_eq_true_eq]
+  constructor
+  · rintro ⟨r, hr, c, hc, ⟨h1, h2⟩, h3⟩; exact ⟨r, hr, c, hc, ⟨(e r c hr hc).mp h1, h2⟩, h3⟩
+  · rintro ⟨r, hr, c, hc, ⟨h1, h2⟩, h3⟩; exact ⟨r, hr, c, hc, ⟨(e r c hr hc).mpr h1, h2⟩, h3⟩
+
+/-- KNOWN FINDING, machine-checked: `morph_impl` reads the structuring element transposed.  A horizontal 1×3 line
+    (symmetric: B = −B) dilates VERTICALLY in the model of the code, whereas the Spec dilates horizontally. -/
+theorem C16_se_transposed_witness :
+    morph 3 3 [0, 0, 0, 1, 1, 1, 0, 0, 0] 3 1 1 true [0, 0, 0, 0, 9, 0, 0, 0, 0] = [0, 9, 0, 0, 9, 0, 0, 9, 0]
+    ∧ morphSpec 3 3 [0, 0, 0, 1, 1, 1, 0, 0, 0] 3 1 1 true [0, 0, 0, 0, 9, 0, 0, 0, 0] = [0, 0, 0, 9, 9, 9, 0, 0, 0]
+    ∧ pointSymmetric [0, 0, 0, 1, 1, 1, 0, 0, 0] 3 1 1 = true := by decide
+
 /-! ### median -/
 
 /-- `values[size/2]` after `nth_element` (= element size/2 of the sorted window) is a true median: at most size/2
